@@ -244,6 +244,48 @@ func runC02(w *W) {
 			}
 		}
 	}
+	// root-level scalar documents: the descriptor is a scalar type and the document is the value itself, possibly
+	// followed by insignificant whitespace
+	nroot := 0
+	for _, f := range sch.Root.St.Fields {
+		switch f.T.Kind {
+		case tBOOL, tBYTE, tI16, tI32, tI64, tDOUBLE, tSTRING:
+		default:
+			continue
+		}
+		if nroot >= 3 || !t.Chance(1, 3, "rootscalar.use") || (f.T.Kind == tSTRING && f.T.Binary && (opts.NoBase64Binary || so.NoBinary)) {
+			continue
+		}
+		nroot++
+		v := (&vgen{t: t, o: vgenOpts{MaxStr: 1 + sizeClass(t, "rootscalar.maxstr", 300), FiniteOnly: true}}).value(f.T, 0)
+		st := &jsonStyle{t: t, Esc: t.Intn(3, "rootscalar.esc"), Num: t.Intn(2, "rootscalar.num"), QuoteNums: opts.String2Int64, NoBase64: opts.NoBase64Binary}
+		js := st.render(v)
+		for k := t.Intn(4, "rootscalar.ws"); k > 0; k-- {
+			js = append(js, []string{" ", "\n", "\r\n", "\t"}[t.Intn(4, "rootscalar.ws.kind")]...)
+		}
+		exp := encodeThrift(nil, v)
+		fdesc := desc.Struct().FieldById(thrift.FieldID(f.ID)).Type()
+		env := drawJ2TEnv(w, len(exp), len(js))
+		b64 := f.T.Kind == tSTRING && f.T.Binary
+		if b64 && env.DoInto {
+			env.OutPlace = simrt.PlaceGuardEnd
+		}
+		w.NextOp(fmt.Sprintf("j2t root-level %s %s env %s", typeName(f.T), clip(js, 80), env))
+		w.opFacts = map[string]string{"negative": "false", "in_place": simrt.PlaceNames[env.InPlace], "last_byte": lastByteClass(js), "literal_near_end": fmt.Sprint(literalNearEnd(js)),
+			"has_base64": fmt.Sprint(b64), "out_guarded": fmt.Sprint(b64), "root_scalar": "true"}
+		r := runJ2T(w, &cv, fdesc, js, env, context.Background())
+		w.opFacts = nil
+		w.T.NoteBytes(r.Out)
+		facts := r.Facts
+		facts["env"], facts["root_scalar"] = env.String(), "true"
+		if r.Err != nil {
+			w.Failf("conforming-rejected", facts, "root-level %s document rejected (env %s): %v\njson: %q", typeName(f.T), env, r.Err, clip(js, 200))
+		}
+		if !bytes.Equal(r.Out, exp) {
+			w.Failf("wrong-bytes", facts, "root-level %s document converts to the wrong bytes (env %s)\n got: %x\nwant: %x\njson: %q", typeName(f.T), env, clipb(r.Out, 200), clipb(exp, 200), clip(js, 200))
+		}
+		w.Count("root_scalar_docs")
+	}
 	w.sample = map[string]interface{}{"idl_bytes": len(sch.IDL), "docs": ndocs, "options": fmt.Sprintf("%+v", opts), "flavour": flavour}
 }
 
